@@ -6,6 +6,7 @@ import Proofs.E2E.C16
 import Proofs.C16.Ecies
 import Proofs.C16.EllSwift
 import Proofs.C16.EllSwiftToy
+import Proofs.C16.Borromean
 /-!
 # C16 — property theorems only (see DESIGN.md §3 C16).
 
@@ -481,5 +482,18 @@ theorem ellswift_roundtrip_small_curves_partial :
 /-- the field hypotheses are satisfiable: `ZMod`-free witness in ℚ(√−3) is not needed — in `ZMod 7`,
 `c = 2` has `c² = 4 = −3` -/
 example : ((2 : ZMod 7) ^ 2 = -3) ∧ ((2 : ZMod 7) ≠ 0) := by decide
+
+/-! ## Borromean ring signatures -/
+
+/-- **T10 (Borromean, ring-closing step — partial).** At the signer's index `sign` answers
+`s = (k + q·e) mod n`; the verifier's recomputed commitment `double_mult_var(−e, q•G, s, G)` is `k•G` and has
+the same compressed encoding, for any `q`, `e` and nonce `k ∈ 1..n-1`: so the verifier's hash chain
+re-enters the signer's and closes on `e0`. PARTIAL: the chain over rings/positions itself has no Lean
+model (property oracle `borromean.sign_verify` on the real code: random ring counts/sizes/indices). -/
+theorem borromean_closing_step_partial {α G : Type} [AddCommGroup G] {o : GroupOps α} (L : Lawful o G)
+    (q k e : Int) (hk : 0 < k ∧ k < o.n) :
+    L.abs (o.dmul (-e) (o.mul q o.gen) ((k + q * e) % o.n) o.gen) = L.abs (o.mul k o.gen) ∧
+    cbytes o (o.dmul (-e) (o.mul q o.gen) ((k + q * e) % o.n) o.gen) = cbytes o (o.mul k o.gen) :=
+  borromean_closing_step L q k e hk
 
 end Props.C16
